@@ -3,9 +3,9 @@
 
    One induction on fuel over the eight mutually recursive functions.  For a call on scope `sc`
    with `fuel >= lw(node) + untrav(sc) * fuel_step b` the result is `Done` and the final scope is
-   related to `sc` by `Post`.  `untrav sc` = number of bundle patterns not on `travelled`
-   (structural comparison); `Scope::track` is the only way into another message/term pattern and
-   it either reports Cyclic or pushes a pattern that was not on the stack, which lowers `untrav`;
+   related to `sc` by `Post`.  `untrav sc` = number of the bundle's pattern objects (keys) not on
+   `travelled`; `Scope::track` is the only way into another message/term pattern and it either
+   reports Cyclic or pushes an object that was not on the stack, which lowers `untrav`;
    everything else descends in the AST (`lw_*`).                                             *)
 From FluentV Require Import Base.Bytes Base.BytesFacts Base.Outcome Syntax.Ast Bundle.Args Bundle.ArgsProofs
   Bundle.Number Bundle.NumberProofs Bundle.ResolverAst Bundle.ResolverAstProofs Bundle.ResolverModel
@@ -79,34 +79,46 @@ Definition lw_oargs (a : option call_args) : nat := match a with None => 1 | Som
 Lemma lw_oargs_pos a : 1 <= lw_oargs a.
 Proof. destruct a; cbn; [apply lw_args_pos | lia]. Qed.
 
-(* ---------- counting the patterns not yet on the stack ---------- *)
-Definition cnt (l T : list pattern) : nat := length (filter (fun q => negb (pattern_mem q T)) l).
+(* ---------- counting the pattern objects not yet on the stack ---------- *)
+Lemma obytes_eqb_refl a : obytes_eqb a a = true.
+Proof. destruct a; cbn; [apply bytes_eqb_refl | reflexivity]. Qed.
+
+Lemma pkey_eqb_refl k : pkey_eqb k k = true.
+Proof. destruct k as [t i a]. cbn. rewrite Bool.eqb_reflx, bytes_eqb_refl, obytes_eqb_refl. reflexivity. Qed.
+
+Lemma key_mem_head k l : key_mem k (Some k :: l) = true.
+Proof. unfold key_mem; cbn. now rewrite pkey_eqb_refl. Qed.
+
+Lemma key_mem_cons k q l : key_mem k l = true -> key_mem k (q :: l) = true.
+Proof. unfold key_mem; cbn. intros ->. apply Bool.orb_true_r. Qed.
+
+Definition cnt (l : list pkey) (T : list (option pkey)) : nat := length (filter (fun q => negb (key_mem q T)) l).
 
 Lemma cnt_cons_le l q T : cnt l (q :: T) <= cnt l T.
 Proof.
   unfold cnt. induction l as [|x r IH]; cbn [filter length]; [lia|].
-  destruct (pattern_mem x T) eqn:E.
-  - rewrite (pattern_mem_cons x q T E). cbn. exact IH.
-  - cbn [negb]. destruct (pattern_mem x (q :: T)); cbn [negb length]; lia.
+  destruct (key_mem x T) eqn:E.
+  - rewrite (key_mem_cons x q T E). cbn. exact IH.
+  - cbn [negb]. destruct (key_mem x (q :: T)); cbn [negb length]; lia.
 Qed.
 
-Lemma cnt_push l q T : In q l -> pattern_mem q T = false -> S (cnt l (q :: T)) <= cnt l T.
+Lemma cnt_push l k T : In k l -> key_mem k T = false -> S (cnt l (Some k :: T)) <= cnt l T.
 Proof.
   unfold cnt. induction l as [|x r IH]; cbn [filter length In]; [tauto|].
   intros [->|Hin] Hq.
-  - rewrite Hq, pattern_mem_head. cbn [negb length].
-    pose proof (cnt_cons_le r q T) as H. unfold cnt in H. lia.
+  - rewrite Hq, key_mem_head. cbn [negb length].
+    pose proof (cnt_cons_le r (Some k) T) as H. unfold cnt in H. lia.
   - specialize (IH Hin Hq).
-    destruct (pattern_mem x T) eqn:E.
-    + rewrite (pattern_mem_cons x q T E). cbn. exact IH.
-    + cbn [negb]. destruct (pattern_mem x (q :: T)); cbn [negb length]; lia.
+    destruct (key_mem x T) eqn:E.
+    + rewrite (key_mem_cons x (Some k) T E). cbn. exact IH.
+    + cbn [negb]. destruct (key_mem x (Some k :: T)); cbn [negb length]; lia.
 Qed.
 
 Lemma cnt_le_nil l T : cnt l T <= cnt l [].
 Proof.
   unfold cnt. induction l as [|x r IH]; cbn [filter length]; [lia|].
-  change (pattern_mem x []) with false. cbn [negb length].
-  destruct (pattern_mem x T); cbn [negb length]; lia.
+  change (key_mem x []) with false. cbn [negb length].
+  destruct (key_mem x T); cbn [negb length]; lia.
 Qed.
 
 Section Total.
@@ -146,7 +158,8 @@ Notation ga := (get_arguments overflow_checks call_function transform formatter 
 
 Definition BP := bundle_patterns b.
 Definition K := fuel_step b.
-Definition untrav (sc : scope) : nat := cnt BP (sc_travelled sc).
+Definition BK := bundle_keys b.
+Definition untrav (sc : scope) : nat := cnt BK (sc_travelled sc).
 Definition need (f w : nat) (sc : scope) : Prop := w + untrav sc * K <= f.
 
 Lemma K_bound p : In p BP -> lw_pattern p + 2 <= K.
@@ -251,13 +264,13 @@ Definition Vspec (r : outcome (fvalue * scope)) (sc : scope) : Prop :=
 Definition Aspec (r : outcome (list fvalue * fargs * scope)) (sc : scope) : Prop :=
   exists pos named sc', r = Done (pos, named, sc') /\ Post sc sc' /\ Forall value_ok pos /\ args_ok named.
 
-Definition P_pw f := forall p sc, Inv sc -> need f (lw_pattern p) sc -> Rspec (pw f p sc) sc.
-Definition P_pr f := forall p sc, Inv sc -> need f (1 + lw_pattern p) sc -> Vspec (pr f p sc) sc.
+Definition P_pw f := forall k p sc, Inv sc -> need f (lw_pattern p) sc -> Rspec (pw f k p sc) sc.
+Definition P_pr f := forall k p sc, Inv sc -> need f (1 + lw_pattern p) sc -> Vspec (pr f k p sc) sc.
 Definition P_ew f := forall e sc, Inv sc -> need f (lw_expr e) sc -> Rspec (ew f e sc) sc.
 Definition P_iw f := forall i sc, Inv sc -> need f (lw_inline i) sc -> Rspec (iw f i sc) sc.
 Definition P_ir f := forall i sc, Inv sc -> need f (1 + lw_inline i) sc -> Vspec (ir f i sc) sc.
-Definition P_mt f := forall p e sc, Inv sc -> need f (1 + lw_expr e) sc -> Rspec (mt f p e sc) sc.
-Definition P_tr f := forall p exp sc, Inv sc -> In p BP -> need f 1 sc -> Rspec (tr f p exp sc) sc.
+Definition P_mt f := forall k p e sc, Inv sc -> need f (1 + lw_expr e) sc -> Rspec (mt f k p e sc) sc.
+Definition P_tr f := forall k p exp sc, Inv sc -> In k BK -> In p BP -> need f 1 sc -> Rspec (tr f k p exp sc) sc.
 Definition P_ga f := forall oa sc, Inv sc -> need f (lw_oargs oa) sc -> Aspec (ga f oa sc) sc.
 
 Definition P_all f := P_pw f /\ P_pr f /\ P_ew f /\ P_iw f /\ P_ir f /\ P_mt f /\ P_tr f /\ P_ga f.
@@ -310,6 +323,64 @@ Proof.
   unfold get_entry_term. destruct (entry_find (b_entries b) id) as [[| v' a'|]|] eqn:E; try discriminate.
   intros [= -> ->] Hf. apply entry_find_in in E as [k Hk].
   eapply entry_patterns_in; [eassumption|]. cbn. right. eapply find_attribute_in, Hf.
+Qed.
+
+(* … and the key under which Scope::track sees the pattern is one of the bundle's keys *)
+Lemma entry_find_in_id m id e : entry_find m id = Some e -> In (id, e) m.
+Proof.
+  induction m as [|[k e'] r IH]; cbn; [discriminate|].
+  destruct (bytes_eqb k id) eqn:E.
+  - intros [= <-]. apply bytes_eqb_eq in E. subst. left; reflexivity.
+  - intros H. right. apply IH, H.
+Qed.
+
+Lemma entry_keys_in id e k : In (id, e) (b_entries b) -> In k (entry_keys id e) -> In k BK.
+Proof.
+  intros He Hk. unfold BK, bundle_keys. apply in_flat_map. exists (id, e). auto.
+Qed.
+
+Lemma find_attribute_key (t : bool) id attrs name p :
+  find_attribute attrs name = Some p -> In (PKey t id (Some name)) (map (fun a => PKey t id (Some (attr_id a))) attrs).
+Proof.
+  induction attrs as [|a r IH]; cbn; [discriminate|].
+  destruct (bytes_eqb (attr_id a) name) eqn:E; [|auto].
+  intros _. apply bytes_eqb_eq in E. left. now rewrite E.
+Qed.
+
+Lemma message_value_key id v attrs : get_entry_message b id = Some (Some v, attrs) -> In (PKey false id None) BK.
+Proof.
+  unfold get_entry_message. destruct (entry_find (b_entries b) id) as [[v' a'| |]|] eqn:E; try discriminate.
+  intros [= -> ->]. apply entry_find_in_id in E.
+  eapply entry_keys_in; [eassumption|]. cbn. left; reflexivity.
+Qed.
+
+Lemma message_attr_key id v attrs name p :
+  get_entry_message b id = Some (v, attrs) -> find_attribute attrs name = Some p -> In (PKey false id (Some name)) BK.
+Proof.
+  unfold get_entry_message. destruct (entry_find (b_entries b) id) as [[v' a'| |]|] eqn:E; try discriminate.
+  intros [= -> ->] Hf. apply entry_find_in_id in E.
+  eapply entry_keys_in; [eassumption|]. cbn. apply in_or_app. right. eapply find_attribute_key, Hf.
+Qed.
+
+Lemma term_value_key id v attrs : get_entry_term b id = Some (v, attrs) -> In (PKey true id None) BK.
+Proof.
+  unfold get_entry_term. destruct (entry_find (b_entries b) id) as [[| v' a'|]|] eqn:E; try discriminate.
+  intros [= -> ->]. apply entry_find_in_id in E.
+  eapply entry_keys_in; [eassumption|]. cbn. left; reflexivity.
+Qed.
+
+Lemma term_attr_key id v attrs name p :
+  get_entry_term b id = Some (v, attrs) -> find_attribute attrs name = Some p -> In (PKey true id (Some name)) BK.
+Proof.
+  unfold get_entry_term. destruct (entry_find (b_entries b) id) as [[| v' a'|]|] eqn:E; try discriminate.
+  intros [= -> ->] Hf. apply entry_find_in_id in E.
+  eapply entry_keys_in; [eassumption|]. cbn. right. eapply find_attribute_key, Hf.
+Qed.
+
+Lemma keys_length : length BK = length BP.
+Proof.
+  unfold BK, BP, bundle_keys, bundle_patterns. induction (b_entries b) as [|[id e] r IH]; cbn [flat_map]; [reflexivity|].
+  rewrite !app_length, IH. f_equal. destruct e as [[v|] attrs | v attrs | f]; cbn; rewrite ?app_length, ?map_length; reflexivity.
 Qed.
 
 (* ---------- small total pieces ---------- *)
@@ -376,10 +447,10 @@ Proof.
 Qed.
 
 (* ---------- the loops ---------- *)
-Lemma pattern_loop_ok f p len :
+Lemma pattern_loop_ok f k p len :
   P_mt f ->
   forall els sc, Inv sc -> need f (1 + list_max (map lw_element els)) sc ->
-  Rspec (pattern_loop overflow_checks transform b (mt f p) len els sc) sc.
+  Rspec (pattern_loop overflow_checks transform b (mt f k p) len els sc) sc.
 Proof.
   intros Hmt. induction els as [|elem rest IH]; intros sc Hi Hn; cbn [pattern_loop].
   - eexists _, _. split; [reflexivity | apply Post_refl, Hi].
@@ -388,7 +459,7 @@ Proof.
     rewrite map_cons, list_max_cons in Hn.
     destruct elem as [value | expression].
     + destruct (IH sc Hi) as (o & sc1 & E & P1); [eapply need_le; [|exact Hn]; lia|].
-      fold (pattern_loop overflow_checks transform b (mt f p) len) in E |- *. rewrite E. cbn.
+      fold (pattern_loop overflow_checks transform b (mt f k p) len) in E |- *. rewrite E. cbn.
       eexists _, _. split; [reflexivity | exact P1].
     + destruct Hi as [Hb Hl].
       assert (Hle : (sc_placeables sc <= MAX_PLACEABLES)%N).
@@ -404,12 +475,12 @@ Proof.
         split; cbn; auto; [|lia]. exists [TooManyPlaceables]. split; [reflexivity|]. intros _. right. left. reflexivity.
       * apply N.ltb_ge in Hlt.
         assert (I1 : Inv sc1) by (split; [left; cbn; lia | exact Hl]).
-        destruct (Hmt p expression sc1 I1) as (o1 & sc2 & E1 & P1).
+        destruct (Hmt k p expression sc1 I1) as (o1 & sc2 & E1 & P1).
         { eapply need_mono; [exact C1 | | exact Hn]. cbn [lw_element]. lia. }
         rewrite E1. cbn [obind].
         destruct (IH sc2 (post_inv _ _ P1)) as (o2 & sc3 & E2 & P2).
         { eapply need_mono; [eapply Ctl_trans; [exact C1 | exact (post_ctl _ _ P1)] | | exact Hn]. lia. }
-        fold (pattern_loop overflow_checks transform b (mt f p) len) in E2 |- *. rewrite E2. cbn.
+        fold (pattern_loop overflow_checks transform b (mt f k p) len) in E2 |- *. rewrite E2. cbn.
         eexists _, _. split; [reflexivity|].
         eapply Post_trans; [|exact P2]. eapply Post_trans; [|exact P1].
         split; [exact I1 | reflexivity | exact C1].
@@ -450,16 +521,16 @@ Qed.
 (* ---------- one step of each function ---------- *)
 Lemma step_pw f : P_mt f -> P_pw (S f).
 Proof.
-  intros Hmt p sc Hi Hn. rewrite pw_S.
+  intros Hmt k p sc Hi Hn. rewrite pw_S.
   apply pattern_loop_ok; [exact Hmt | exact Hi|].
   destruct p as [els]. cbn [pattern_elements lw_pattern] in *. unfold need in *. lia.
 Qed.
 
 Lemma step_pr f : P_pw f -> P_pr (S f).
 Proof.
-  intros Hpw p sc Hi Hn. rewrite pr_S.
-  assert (Hgen : Vspec (let* (o, sc0) := pw f p sc in Done (VString (flatten o), sc0)) sc).
-  { destruct (Hpw p sc Hi) as (o & sc1 & E & P1); [apply need_S; exact Hn|].
+  intros Hpw k p sc Hi Hn. rewrite pr_S.
+  assert (Hgen : Vspec (let* (o, sc0) := pw f k p sc in Done (VString (flatten o), sc0)) sc).
+  { destruct (Hpw k p sc Hi) as (o & sc1 & E & P1); [apply need_S; exact Hn|].
     rewrite E. cbn. eexists _, _. split; [reflexivity|]. split; [exact P1 | exact Logic.I]. }
   destruct p as [els]. cbn [pattern_elements] in *.
   destruct els as [|[v|e] [|x r]]; try exact Hgen.
@@ -484,8 +555,8 @@ Proof.
         apply find_variant_ok; [exact (post_inv _ _ P1) | exact V1 | exact (post_inv _ _ P1) | exact V1]. }
     destruct Hfind as (hit & sc2 & E2 & P2 & Hin). rewrite E2. cbn [obind].
     assert (P12 : Post sc sc2) by (eapply Post_trans; eassumption).
-    assert (Hvar : forall p k d, In (Variant k p d) variants -> Rspec (pw f p sc2) sc).
-    { intros p k d Hv. destruct (Hpw p sc2 (post_inv _ _ P12)) as (o & sc3 & E3 & P3).
+    assert (Hvar : forall p k d, In (Variant k p d) variants -> Rspec (pw f None p sc2) sc).
+    { intros p k d Hv. destruct (Hpw None p sc2 (post_inv _ _ P12)) as (o & sc3 & E3 & P3).
       - apply need_S. eapply need_mono; [exact (post_ctl _ _ P12) | | exact Hn].
         pose proof (variant_weight _ _ _ _ Hv). lia.
       - eexists _, _. split; [exact E3 | eapply Post_trans; eassumption]. }
@@ -499,8 +570,8 @@ Qed.
 
 Lemma step_mt f : P_ew f -> P_mt (S f).
 Proof.
-  intros Hew p e sc Hi Hn. rewrite mt_S. cbv zeta.
-  set (sc0 := match sc_travelled sc with [] => set_travelled sc [p] | _ :: _ => sc end).
+  intros Hew k p e sc Hi Hn. rewrite mt_S. cbv zeta.
+  set (sc0 := match sc_travelled sc with [] => set_travelled sc [k] | _ :: _ => sc end).
   assert (C0 : Ctl sc sc0 /\ Inv sc0 /\ sc_local_args sc0 = sc_local_args sc).
   { subst sc0. destruct (sc_travelled sc) eqn:Et.
     - split; [|split; [exact Hi | reflexivity]].
@@ -518,21 +589,21 @@ Qed.
 
 Lemma step_tr f : P_pw f -> P_tr (S f).
 Proof.
-  intros Hpw p exp sc Hi Hin Hn. rewrite tr_S.
-  destruct (pattern_mem p (sc_travelled sc)) eqn:Em.
+  intros Hpw k p exp sc Hi Hk Hin Hn. rewrite tr_S.
+  destruct (key_mem k (sc_travelled sc)) eqn:Em.
   - eexists _, _. split; [reflexivity | apply Post_add_error, Hi].
-  - cbv zeta. set (sc1 := set_travelled sc (p :: sc_travelled sc)).
+  - cbv zeta. set (sc1 := set_travelled sc (Some k :: sc_travelled sc)).
     assert (I1 : Inv sc1) by exact Hi.
-    destruct (Hpw p sc1 I1) as (o & sc2 & E2 & P2).
+    destruct (Hpw (Some k) p sc1 I1) as (o & sc2 & E2 & P2).
     { unfold need in *. unfold untrav at 1. cbn [sc1 set_travelled sc_travelled].
-      pose proof (cnt_push BP p (sc_travelled sc) Hin Em) as Hc. fold (untrav sc) in Hc.
+      pose proof (cnt_push BK k (sc_travelled sc) Hk Em) as Hc. fold (untrav sc) in Hc.
       pose proof (K_bound p Hin).
-      assert (S (cnt BP (p :: sc_travelled sc)) * K <= untrav sc * K) by (apply Nat.mul_le_mono_r; exact Hc).
+      assert (S (cnt BK (Some k :: sc_travelled sc)) * K <= untrav sc * K) by (apply Nat.mul_le_mono_r; exact Hc).
       lia. }
     rewrite E2. cbn [obind].
     eexists _, _. split; [reflexivity|].
     destruct P2 as [I2 L2 [T2 D2 (es & Ees & Fes) Pl2]].
-    assert (T2' : sc_travelled sc2 = p :: sc_travelled sc) by (apply T2; cbn; discriminate).
+    assert (T2' : sc_travelled sc2 = Some k :: sc_travelled sc) by (apply T2; cbn; discriminate).
     split.
     + exact I2.
     + cbn. exact L2.
@@ -603,9 +674,9 @@ Proof.
   destruct (get_entry_term b id) as [[value attributes]|] eqn:Eg.
   - destruct attribute as [attr|].
     + destruct (find_attribute attributes attr) as [v|] eqn:Ea.
-      * apply Htr; [exact Hi | eapply term_attr_in; eassumption | exact Hn].
+      * apply Htr; [exact Hi | eapply term_attr_key; eassumption | eapply term_attr_in; eassumption | exact Hn].
       * eapply write_ref_error_ok; eassumption.
-    + apply Htr; [exact Hi | eapply term_value_in; eassumption | exact Hn].
+    + apply Htr; [exact Hi | eapply term_value_key; eassumption | eapply term_value_in; eassumption | exact Hn].
   - eapply write_ref_error_ok; eassumption.
 Qed.
 
@@ -635,10 +706,10 @@ Proof.
     destruct (get_entry_message b id) as [[value attributes]|] eqn:Eg.
     + destruct attribute as [attr|].
       * destruct (find_attribute attributes attr) as [v|] eqn:Ea.
-        -- apply Htr; [exact Hi | eapply message_attr_in; eassumption | exact Hn1].
+        -- apply Htr; [exact Hi | eapply message_attr_key; eassumption | eapply message_attr_in; eassumption | exact Hn1].
         -- eapply write_ref_error_ok; [exact Hi | reflexivity].
       * destruct value as [v|].
-        -- apply Htr; [exact Hi | eapply message_value_in; eassumption | exact Hn1].
+        -- apply Htr; [exact Hi | eapply message_value_key; eassumption | eapply message_value_in; eassumption | exact Hn1].
         -- eexists _, _. split; [reflexivity | apply Post_add_error, Hi].
     + eapply write_ref_error_ok; [exact Hi | reflexivity].
   - (* TermReference *)
@@ -705,13 +776,13 @@ Proof. split; [left; cbn; apply N.le_0_l | exact Logic.I]. Qed.
 
 Lemma need_new p c : need (fuel_of b p) (lw_pattern p) (scope_new c).
 Proof.
-  unfold need, untrav, fuel_of. cbn [scope_new sc_travelled]. rewrite cnt_nil. fold BP. fold K. lia.
+  unfold need, untrav, fuel_of. cbn [scope_new sc_travelled]. rewrite cnt_nil, keys_length. fold BP. fold K. lia.
 Qed.
 
-Theorem write_pattern_total p c :
+Theorem write_pattern_total top p c :
   exists o sc',
     write_pattern overflow_checks call_function transform formatter rules custom_as_string
-      unescape_write unescape_to_string f64_from_str b args (fuel_of b p) p c = Done (o, sc') /\
+      unescape_write unescape_to_string f64_from_str b args (fuel_of b p) top p c = Done (o, sc') /\
     Post (scope_new c) sc'.
 Proof.
   unfold write_pattern.
@@ -719,15 +790,15 @@ Proof.
   apply Hpw; [apply Inv_new | apply need_new].
 Qed.
 
-Theorem format_pattern_total p c :
+Theorem format_pattern_total top p c :
   exists text sc',
     format_pattern overflow_checks call_function transform formatter rules custom_as_string
-      unescape_write unescape_to_string f64_from_str b args (fuel_of b p) p c = Done (text, sc') /\
+      unescape_write unescape_to_string f64_from_str b args (fuel_of b p) top p c = Done (text, sc') /\
     Post (scope_new c) sc'.
 Proof.
   unfold format_pattern.
   destruct (total_all (S (fuel_of b p))) as (_ & Hpr & _).
-  destruct (Hpr p (scope_new c) (Inv_new c)) as (v & sc' & E & P1 & _).
+  destruct (Hpr top p (scope_new c) (Inv_new c)) as (v & sc' & E & P1 & _).
   { pose proof (need_new p c). unfold need in *. lia. }
   rewrite E. cbn. eexists _, _. split; [reflexivity | exact P1].
 Qed.
@@ -751,9 +822,9 @@ Proof.
 Qed.
 
 (* a pattern that is already being resolved is not entered again: Cyclic is reported *)
-Lemma track_cyclic f p exp sc :
-  pattern_mem p (sc_travelled sc) = true ->
-  tr (S f) p exp sc = Done (braced (inline_write_error exp), add_error sc Cyclic).
+Lemma track_cyclic f k p exp sc :
+  key_mem k (sc_travelled sc) = true ->
+  tr (S f) k p exp sc = Done (braced (inline_write_error exp), add_error sc Cyclic).
 Proof. intros H. rewrite tr_S, H. reflexivity. Qed.
 
 End Total.
